@@ -28,6 +28,11 @@ RULE = ('histories of 15..60 events on a started SvsInst (sync_interval in {1.25
         '{0.25,0.5,1,2} s, last_used_seq_num in {0,1,5,2^32,2^63}, 0..2 publications before start): received vectors '
         'newer / older / equal / incomparable / subset / unknown-node / over-claiming / self-ok / duplicate ids / '
         'entries without name or without sequence number / byte-mutated / random bytes / wrong name length; '
+        'hand-encoded vectors (no library encoder): one entry of every presence shape {Name only, SeqNo only, empty entry, '
+        'empty Name + SeqNo, empty Name only} for a known / unknown / own / fresh node at the first / middle / last position of a '
+        'newer / older / equal / mixed / over-claiming / empty rest, SeqNo in 1/2/4/8 bytes, singly, inside suppression windows and '
+        'as directed sweeps from one state; the oracle reads every received component of canonical layout off the wire itself '
+        '(accepted / denote are evaluated on those entries, not on what the library decoded); '
         'publications; clock moves that stop short of, hit exactly, or pass the timer; directed suppression windows '
         '(opener + 1..3 further vectors + expiry).  One case = one micro-step; non-trivial = it changed or read a '
         'vector (accepted/rejected vector, publication, timer expiry); distinct by (state, event) hash')
@@ -35,7 +40,9 @@ ASSUMPTIONS = [
     'time is counted in ticks of 2**-18 s; the float arithmetic of sample_sync_timer/sample_sup_timer is exact to far '
     'below one tick for the intervals used, and times are compared after rounding to ticks',
     'decoding of the StateVec name component is performed by the real ndn.app_support.svs.tlv classes in the adapter; '
-    'the model starts from the decoded entries (or the class of decoding failure)',
+    'the model starts from the decoded entries (or the class of decoding failure); the ORACLE takes the entries of a component '
+    'of canonical layout (StateVec{Entry{Name{generic components}? SeqNo(1|2|4|8 bytes)?}*}, shortest-form numbers, exact '
+    'lengths) from a 40-line strict reader in the harness instead, and reports a decoder that reads something else there',
     'last_used_seq_num >= 0; start()/stop() lifecycle other than construct, publish*, start is not modelled',
     'between events the loop runs to quiescence (DESIGN 2.6): a packet is never handled between new_data() and the '
     'timer task waking up',
